@@ -482,6 +482,7 @@ func main() {
 	fmt.Println("namespace Bmc.Gen\n")
 	bad := 0
 	emitted := map[string]bool{}
+	gaveUp := map[string]bool{}
 	var emit func(k string)
 	emit = func(k string) {
 		if emitted[k] {
@@ -491,6 +492,7 @@ func main() {
 		fn := found[k]
 		if fn == nil {
 			fmt.Printf("-- MISSING: %s not found in the source tree\n\n", k)
+			gaveUp[k] = true
 			bad++
 			return
 		}
@@ -506,9 +508,26 @@ func main() {
 				}
 			}
 		}
+		// a caller of a function that could not be translated cannot be translated either (the generated file must
+		// always compile: what is missing is then reported per definition, by the theorems that need it)
+		for _, b := range fn.Blocks {
+			for _, ins := range b.Instrs {
+				if c, ok := ins.(*ssa.Call); ok {
+					if callee := c.Call.StaticCallee(); callee != nil {
+						if _, ok := want[callee.String()]; ok && gaveUp[callee.String()] {
+							fmt.Printf("-- GAVE UP on %s: calls %s, which was not translated\n\n", k, callee.String())
+							gaveUp[k] = true
+							bad++
+							return
+						}
+					}
+				}
+			}
+		}
 		src, fail := translate(fn, want[k])
 		if fail != "" {
 			fmt.Printf("-- GAVE UP on %s: %s\n\n", k, fail)
+			gaveUp[k] = true
 			bad++
 			return
 		}
